@@ -78,6 +78,8 @@ type Field struct {
 	Required bool   `json:"required,omitempty"`
 	// gRPC field number (0 = none)
 	Tag int `json:"tag,omitempty"`
+	// ErrName marks the attribute holding the error name of a custom error type (ErrorName DSL).
+	ErrName bool `json:"err_name,omitempty"`
 }
 
 // Validation holds the validation keywords of an attribute.
